@@ -258,6 +258,15 @@ def job_batchnorm(cfg):
                 fresh.load_state_dict(m.state_dict())
                 h["fresh"] = fresh
                 return None
+            if op == "load_into_used":
+                # a layer that has already been evaluated (and may have memoised something) receives m's state dict
+                used_ = NM.BatchNorm(D)
+                TK.symbolize(used_, prefix="used_", buffers=("running_mean", "running_var"), positive_buffers=("running_var",))
+                used_.eval()
+                used_(x)
+                used_.load_state_dict(m.state_dict())
+                h["used"] = used_
+                return used_(x)
 
         res = ex.explore(run)
         if op == "inverse" and training:
@@ -316,6 +325,10 @@ def job_batchnorm(cfg):
                 y, lad = out
                 ref = (rv0 + eps).sqrt() * ((x - m.bias) / weight) + rm0
                 cx.eq("eval-inverse==reference", y, ref)
+        if op == "load_into_used":
+            y, lad = out
+            ref = weight * ((x - rm0) / (rv0 + eps).sqrt()) + m.bias
+            cx.eq("used-layer-after-load==evaluation-with-the-loaded-statistics", y, ref)
         if op == "save_load":
             fresh = h["fresh"]
             ok = all(a.t is b.t for a, b in zip(fresh.running_mean.a, m.running_mean.a)) and all(a.t is b.t for a, b in zip(fresh.running_var.a, m.running_var.a)) and all(a.t is b.t for a, b in zip(fresh.unconstrained_weight.a, m.unconstrained_weight.a))
@@ -459,6 +472,13 @@ def replay(cls, cfg, seed=0):
                 fresh = NM.BatchNorm(D).double()
                 fresh.load_state_dict(m.state_dict())
                 worst = float((fresh.running_mean - rm).abs().max())
+            elif op == "load_into_used":
+                used_ = NM.BatchNorm(D).double().eval()
+                with torch.no_grad():
+                    used_(x)
+                    used_.load_state_dict(m.state_dict())
+                    y, _ = used_(x)
+                worst = float((y - (m.weight * (x - rm) / torch.sqrt(rv + m.eps) + m.bias)).abs().max())
             else:
                 getattr(m, op)()
                 worst = float((m.running_mean - rm).abs().max())
@@ -612,6 +632,9 @@ def configs(tier):
             if op not in ("forward", "inverse") and shape != shapes_b[0]:
                 continue
             cfgs.append({"cls": "BatchNorm", "training": training, "op": op, "shape": list(shape), "timeout": t})
+    for training in (True, False):
+        for shape in shapes_b:
+            cfgs.append({"cls": "BatchNorm", "training": training, "op": "load_into_used", "shape": list(shape), "timeout": t})
     return cfgs
 
 
